@@ -152,6 +152,7 @@ func (l *List) Eval(st funcGen.Stack[Value]) error {
 			}
 			it = append(it, v)
 		}
+		verifPoint("List.Eval.publish", len(it), cap(it))
 		l.items = it
 		l.itemsPresent = true
 		l.iterable = createSliceIterable(it)
@@ -245,6 +246,7 @@ func (l *List) Append(st funcGen.Stack[Value]) (*List, error) {
 		return nil, err
 	}
 	newList := append(l.items, st.Get(1))
+	verifPoint("List.Append.cap", len(l.items), cap(l.items))
 	// Guarantee a copy operation the next time append is called on this
 	// list, which is only a rare special case, as the new list is usually
 	// appended to.
